@@ -345,7 +345,7 @@ pub fn as_sig_input(head: Parts, body: Bytes) -> Vec<u8> {
     data.extend(body);
     data.extend(LF.as_bytes());
 
-    data.extend(headers_to_canonicalized_string(&head.headers).as_bytes());
+    data.extend(headers_to_canonicalized_string(&head.headers));
     let path_para = get_path_and_canonicalized_parameters(&head.uri);
     data.extend(path_para.0.as_bytes());
     data.extend(LF.as_bytes());
@@ -371,7 +371,7 @@ fn request_to_sign_input(request_builder: &Builder, body: Option<Vec<u8>>) -> Re
 
     match request_builder.headers_ref() {
         Some(h) => {
-            data.extend(headers_to_canonicalized_string(h).as_bytes());
+            data.extend(headers_to_canonicalized_string(h));
         }
         None => {
             // no headers
@@ -395,16 +395,14 @@ fn request_to_sign_input(request_builder: &Builder, body: Option<Vec<u8>>) -> Re
     Ok(data)
 }
 
-fn headers_to_canonicalized_string(headers: &hyper::HeaderMap) -> String {
-    let mut canonicalized_headers = String::new();
-    let separator = String::from(LF);
-    let mut map: HashMap<String, (String, String)> = HashMap::new();
+fn headers_to_canonicalized_string(headers: &hyper::HeaderMap) -> Vec<u8> {
+    let mut canonicalized_headers: Vec<u8> = Vec::new();
+    let mut map: HashMap<String, Vec<u8>> = HashMap::new();
 
     for (key, value) in headers.iter() {
-        let key = key.to_string();
-        let value = value.to_str().unwrap().to_string();
-        let key_lower_case = key.to_lowercase();
-        map.insert(key_lower_case, (key, value));
+        // a header value is a sequence of bytes that need not be ASCII: sign the bytes as they are
+        let key_lower_case = key.to_string().to_lowercase();
+        map.insert(key_lower_case, value.as_bytes().to_vec());
     }
 
     for key in map.keys().sorted() {
@@ -412,8 +410,10 @@ fn headers_to_canonicalized_string(headers: &hyper::HeaderMap) -> String {
         if key.eq_ignore_ascii_case(constants::AUTHORIZATION_HEADER) {
             continue;
         }
-        let h = format!("{}:{}{}", key, map[key].1.trim(), separator);
-        canonicalized_headers.push_str(&h);
+        canonicalized_headers.extend(key.as_bytes());
+        canonicalized_headers.push(b':');
+        canonicalized_headers.extend(map[key].trim_ascii());
+        canonicalized_headers.extend(LF.as_bytes());
     }
 
     canonicalized_headers
